@@ -827,3 +827,24 @@ def flow_exprs(f, expr: ast.expr) -> tuple[set[str], list[ast.expr]]:
 def flow_closure(f, expr: ast.expr) -> set[str]:
     """Names the value of ``expr`` may derive from inside function ``f`` (see flow_exprs)."""
     return flow_exprs(f, expr)[0]
+
+
+def result_sites(f) -> list[tuple[ast.stmt, ast.expr]]:
+    """(statement, value) pairs that decide what ``f`` returns: every ``return e`` with ``e`` not a
+    plain local, and - for ``return x`` with ``x`` a local - every definition of ``x`` (so that
+    ``found = E ... return found`` and ``return E`` describe the same result sites)."""
+    node = f.node if isinstance(f, FuncInfo) else f
+    out: list[tuple[ast.stmt, ast.expr]] = []
+    seen: set[str] = set()
+    for r in returns_of(node):
+        if r.value is None:
+            continue
+        if isinstance(r.value, ast.Name):
+            defs = [(st, val) for st, val in local_defs(node, r.value.id) if val is not None]
+            if defs:
+                if r.value.id not in seen:
+                    seen.add(r.value.id)
+                    out.extend(defs)
+                continue
+        out.append((r, r.value))
+    return out
